@@ -3,6 +3,7 @@
   writes one JSON result per line on stdout. "reset" starts a fresh heap.
 -/
 import Driver.Codec
+import Driver.IOCase
 import Prov.Factory
 import Std.Data.HashMap
 
@@ -325,6 +326,7 @@ def step (s : St) (j : Json) : R (St × Json) := do
           ("label", optS e.label), ("arrowhead", optS e.arrowhead), ("style", optS e.style), ("color", optS e.color)])).toArray),
       ("clusters", Json.arr (st.clusters.map (fun c => Json.mkObj [("name", Json.str c.name), ("label", Json.str c.label),
           ("url", Json.str c.url)])).toArray)])
+  | "io_case" => return (s, ← ioCase j)
   | "dest_path" =>
     let loc ← (← j.getObjVal? "s").getStr?
     return (s, Json.mkObj [("path", match Prov.FileIO.destPath loc with | some p => Json.str p | none => Json.null)])
